@@ -625,7 +625,7 @@ spifopt_parse(int argc, char *argv[])
                                        : ""))));
                 }
                 CHECK_BAD();
-                continue;
+                NEXT_LOOP();
             }
             /* Also make sure we know what to do with the value. */
             if (!SPIFOPT_OPT_VALUE(j)) {
